@@ -222,17 +222,21 @@ def main():
             print("BUILD-FAILED\n" + err)
             return 2
         exe = list(bins.values())[0]
-        out = os.path.join(BUILD, "selftest-%d.json" % os.getpid())
-        r = sh([exe, "--campaign", "--prop", "C03", "--cases", "130000", "--weak", "--window", "16", "--replay-dir", BUILD, "--out", out,
-                "--known", "data_race:mp_relaxed_race", "--shrink-s", "2"])
-        d = json.load(open(out))
-        bad = [v for v in d["violations"]]
-        print("litmus: %d cases, forbidden outcomes: %d, racy message-passing reported %d times, weak outcomes seen: %s" % (
-            d["evaluations"], len(bad), d.get("known_finding_hits", {}).get("data_race:mp_relaxed_race", 0),
-            {k: v for k, v in d["labels"].items()}))
-        for v in bad:
-            print("  FORBIDDEN/UNEXPECTED: %s %s %s" % (v["cfg"], v["kind"], v["message"]))
-        return 1 if bad or not d.get("known_finding_hits") else 0
+        rc = 0
+        for window in (16, 64, 256):
+            out = os.path.join(BUILD, "selftest-%d-%d.json" % (os.getpid(), window))
+            r = sh([exe, "--campaign", "--prop", "C03", "--cases", "170000", "--weak", "--window", str(window), "--replay-dir", BUILD, "--out", out,
+                    "--known", "data_race:mp_relaxed_race", "--shrink-s", "2"])
+            d = json.load(open(out))
+            bad = [v for v in d["violations"]]
+            print("litmus (window %d): %d cases, forbidden outcomes: %d, racy message-passing reported %d times, weak outcomes seen: %s" % (
+                window, d["evaluations"], len(bad), d.get("known_finding_hits", {}).get("data_race:mp_relaxed_race", 0),
+                {k: v for k, v in d["labels"].items()}))
+            for v in bad:
+                print("  FORBIDDEN/UNEXPECTED: %s %s %s" % (v["cfg"], v["kind"], v["message"]))
+            if bad or not d.get("known_finding_hits"):
+                rc = 1
+        return rc
     build_only = False
     if args[0] == "--build":
         build_only = True
